@@ -158,6 +158,16 @@ var secondaryProbes = map[string][][]string{
 // writes of another type: from the deadline on they must start from an empty key (not answer WRONGTYPE because the
 // dead value is still lying around), before it they must fail with WRONGTYPE and change nothing
 func init() {
+	// malformed or refused commands: the answer must not depend on whether the dead value has been reaped yet
+	for typ := range probesByType {
+		probesByType[typ] = append(probesByType[typ], []string{"EXPIRE", "100000", "ZZ"}, []string{"EXPIRE", "soon"}, []string{"EXPIRE", "100000", "NX", "XX"})
+	}
+	probesByType["string"] = append(probesByType["string"], []string{"SET", "v", "EX", "0"}, []string{"SET", "v", "PX", "abc"}, []string{"INCRBY", "x"}, []string{"SETRANGE", "-1", "x"}, []string{"SET", "v", "NX", "XX"})
+	probesByType["list"] = append(probesByType["list"], []string{"LSET", "x", "z"}, []string{"LPOP", "-1"}, []string{"LINDEX", "x"}, []string{"LPOS", "a", "RANK", "0"})
+	probesByType["set"] = append(probesByType["set"], []string{"SPOP", "-1"}, []string{"SRANDMEMBER", "x"})
+	probesByType["hash"] = append(probesByType["hash"], []string{"HINCRBY", "f", "x"}, []string{"HSET", "g"}, []string{"HINCRBYFLOAT", "f", "nan"})
+	probesByType["zset"] = append(probesByType["zset"], []string{"ZADD", "x", "c"}, []string{"ZADD", "NX", "XX", "1", "c"}, []string{"ZRANGE", "a", "b"})
+	probesByType["stream"] = append(probesByType["stream"], []string{"XADD", "0-0", "g", "w"}, []string{"XADD", "9-1", "g"}, []string{"XRANGE", "x", "+"})
 	strWrites := [][]string{{"SET", "new"}, {"SETNX", "new"}, {"APPEND", "zz"}, {"INCR"}, {"SETRANGE", "1", "x"}, {"MSET", "new"}, {"SETEX", "100000", "new"}, {"SET", "new", "XX"}, {"INCRBYFLOAT", "1.5"}, {"GET"}, {"STRLEN"}}
 	other := map[string][][]string{
 		"list":   {{"LPUSH", "n"}, {"RPUSH", "n"}, {"LPUSHX", "n"}, {"LLEN"}},
